@@ -86,6 +86,9 @@ class E1:
 
     def _env(self, backend):
         env = dict(os.environ)
+        # cbmc writes the CNF for an external SAT solver to $TMPDIR and leaves it behind when it is killed (gigabytes):
+        # keep it inside the obligation's scratch directory, which is always removed
+        if getattr(self, '_scratch', None): env['TMPDIR'] = self._scratch
         if backend == 'cvc5' and self.cvc5_int:
             env['PATH'] = os.path.join(VERIF, 'bin', 'shim-cvc5-int') + ':' + env['PATH']
         return env
@@ -182,6 +185,7 @@ class E1:
     def run(self, pid, open_finding_ids=()):
         t0 = time.time()
         d = scratch('cqv-e1-')
+        self._scratch = d
         extra = []
         excluded = None
         for ex in ([self.exclude] if isinstance(self.exclude, str) else list(self.exclude or [])):
@@ -302,6 +306,7 @@ def flatten_value(lhs, val, out):
     lhs = re.sub(r'\[(\d+)[a-zA-Z]*\]', r'[\1]', lhs)
     if 'members' in val:
         for m in val['members']:
+            if m['name'].startswith('$pad'): continue          # compiler-inserted struct padding: not a C member
             flatten_value(lhs + '.' + m['name'], m['value'], out)
     elif 'elements' in val:
         for e in val['elements']:
